@@ -279,7 +279,7 @@ class Gen:
     def emit_binding(self, out, scope, name, items, indent=b"", trail_ok=True):
         text = self.render(items, "value")
         trail = b""
-        if trail_ok and self.rng.random() < self.p_trail:
+        if trail_ok and text and self.rng.random() < self.p_trail:   # after an empty text they would be leading blanks
             trail = b" " * self.rng.randint(1, 3)     # trailing blanks belong to the value
             items = items + [("lit", trail)]
             self.tag("ws:trailing_in_value")
